@@ -506,7 +506,7 @@ func replayFile(spec *propSpec, bin string, path string) (ok bool, msg string, m
 	// crashed: race / panic flavours
 	if werr != nil {
 		kind := classifyCrash(stderr)
-		if (rf.Property == "C08" || rf.Property == "C12") && (kind == rf.Rule) {
+		if (rf.Property == "C08" || rf.Property == "C10" || rf.Property == "C11" || rf.Property == "C12" || rf.Property == "C16") && (kind == rf.Rule) {
 			return true, firstLines(stderr, 30), ""
 		}
 		return false, "", "worker failed: " + firstLines(stderr, 10)
@@ -707,7 +707,10 @@ func check(id, tier string) int {
 			kinds[c.Kind] = append(kinds[c.Kind], c)
 		}
 		for kind, cs := range kinds {
-			if spec.ID != "C08" && !(spec.ID == "C12" && (kind == "hang" || kind == "panic")) {
+			// the z library aborts the process on a failed internal assertion
+			// (log.Fatal): for the z properties a dead worker is a failed run
+			zCrash := spec.Engine == "zsim" && (kind == "hang" || kind == "panic" || kind == "crash")
+			if spec.ID != "C08" && !zCrash {
 				a.collateral["C08/"+kind] += len(cs)
 				continue
 			}
